@@ -17,7 +17,9 @@ META = {
                   'removes only a minimal prefix of whole segments; simulated deeper behaviours are executed on the real '
                   'commitLog.Clean() with the repository\'s computeTTL mock as clock, and TLC re-judges each real clean '
                   '(prefix, never the newest, minimality, limits hold afterwards, surviving suffix unchanged, OldestOffset) '
-                  'and each real state (fresh readers from every start offset).',
+                  'and each real state (fresh readers from every start offset); cleans with an injected transient deletion error are '
+                  'retried; the route from server defaults and per-stream overrides (absent / explicit 0 / value) to the '
+                  'cleaner is replayed on a real Server.newPartition and judged by TLC (CleanerConfig.tla).',
     'level_note': 'Limits and sizes are those of the snapshot taken by Clean(); age limit on non-monotone write times read '
                   'permissively (judged oldest-first up to the first young segment; equality with the cut-off free). '
                   'Verdicts on retention are taken with compaction off (compaction + retention is judged by C08). Bounds: '
